@@ -52,5 +52,6 @@ def run(case):
     res["sample"] = {"cfg": {k: v for k, v in case["cfg"].items() if k != "sched"}, "ops": case["ops"][:12],
                      "n_ops": len(case["ops"]), "trace_tail": res.pop("trace")[-6:]}
     res["extra"] = {"handler_kinds": res.pop("kinds")}
+    res.pop("last_kinds", None)
     _ = run_
     return res
